@@ -85,7 +85,11 @@ impl PatchHeader {
 
     /// The `Reviewed-By` field.
     pub fn reviewed_by(&self) -> Vec<String> {
-        self.0.get_all("Reviewed-By").collect()
+        // DEP-3 spells the field "Reviewed-by"; "Reviewed-By" is also seen
+        self.0
+            .get_all("Reviewed-by")
+            .chain(self.0.get_all("Reviewed-By"))
+            .collect()
     }
 
     /// Get the last update date of the patch.
